@@ -5,5 +5,6 @@ CONSTANTS
   Focus = {"node"}
   Emit = "end"
   MaxBatch = 1
-INVARIANTS RBACParentsExist EmitEnd
+  AsWritten = FALSE
+INVARIANTS RBACParentsExist IndexAgreement EmitEnd
 CHECK_DEADLOCK FALSE
